@@ -49,6 +49,7 @@ type FuncContract struct {
 	Fresh    bool
 	Trusted  bool // contract is assumed, body not verified (stated in evidence)
 	Lemmas   []string
+	Orders         [][2]string // `order A#i B#j`: the statement containing call site A#i precedes the one containing B#j
 	Propagates     []string // `propagates G#n`: call sites whose failure must be reported by this function
 	PropagatesTags []string
 	File     string
@@ -288,6 +289,12 @@ func parseContractFile(path, pkgDir string) ([]*FuncContract, error) {
 			cur.Trusted = true
 		case "uses":
 			cur.Lemmas = append(cur.Lemmas, splitNames(rest)...)
+		case "order":
+			f := strings.Fields(reTag.ReplaceAllString(rest, ""))
+			if len(f) != 2 {
+				return nil, fmt.Errorf("%s:%d: order wants two call sites", path, ln)
+			}
+			cur.Orders = append(cur.Orders, [2]string{f[0], f[1]})
 		case "propagates":
 			tags := []string{}
 			for _, m := range reTag.FindAllStringSubmatch(rest, -1) {
